@@ -12,7 +12,7 @@ from mc.gen import render
 
 ID = "C14"
 LEVEL = "fault_enumeration"
-LEVEL_TEXT = ("Complete enumeration of valid generated program x every statement position (top level and inside blocks, named scopes, loop bodies, taken .if branches and bodies of applied macros) x 24 classes of definite error "
+LEVEL_TEXT = ("Complete enumeration of valid generated program x every statement position (top level and inside blocks, named scopes, loop bodies, taken .if branches and bodies of applied macros; every top-level variant also with the whole program in an .include'd file) x 26 classes of definite error "
               "(bad character, bad size suffix, bad index register, unterminated string, unterminated comment, missing closing brace, "
               "stray token, undefined symbol in an operand / in data, undefined macro, too few macro arguments, addressing mode or "
               "width the mnemonic lacks, branch out of range, *= to an unmapped bank, missing .include/.incbin/.table/.include_ips "
@@ -35,6 +35,8 @@ FAULTS = {
     "unterminated-comment": "/* never closed",
     "missing-closing-brace": "{",
     "stray-token": ")",
+    "unbalanced-closing-brace": "}",
+    "run-into-unmapped-bank": "*=0x6ffffe\n.dl 0x123456\n.db 1",
     "undefined-symbol-operand": "lda.w nosuchsymbol",
     "undefined-symbol-data": ".dw nosuchsymbol",
     "undefined-macro": "nosuchmacro(1)",
@@ -85,7 +87,7 @@ def setup(tier, seed):
 
 
 def bound(tier):
-    return "7 base programs x every top-level and nested position x 24 error classes x 5 in-process entry points; 24 x 2 real CLI processes; controls"
+    return "7 base programs x every top-level and nested position x 26 error classes x 5 in-process entry points; 26 x 2 real CLI processes; controls"
 
 
 def base_programs():
@@ -244,8 +246,14 @@ def run_fault(name, fault):
         if fault == "missing-closing-brace":
             continue  # an unbalanced brace inside a body is still an error, but which construct it breaks is layout-dependent
         variants.append(("nested:" + "/".join(f"{i}.{k}" for i, k in path), inject_nested(prog, path, FAULTS[fault])))
+    # the same faulty programs reached through .include: the whole program sits in an included file
+    variants += [(f"included:{pos}", ("INCLUDED", fp)) for pos, fp in list(variants) if not str(pos).startswith("nested:")]
     for pos, faulty_prog in variants:
-        src = render.source(faulty_prog)
+        if isinstance(faulty_prog, tuple) and faulty_prog and faulty_prog[0] == "INCLUDED":
+            files = dict(files, **{"c14part.s": render.source(faulty_prog[1])})
+            src = "; main file: everything is in the included file\n.include 'c14part.s'\n"
+        else:
+            src = render.source(faulty_prog)
         for entry in ENTRIES:
             failed, announced, detail = run_entry(entry, src, files)
             evals += 1
